@@ -126,7 +126,7 @@ def feed(args, data, schedule):
             pass
         out, err = b"", b""
         try:
-            p.wait(timeout=30)
+            p.wait(timeout=180)
             err = p.stderr.read()
         except subprocess.TimeoutExpired:
             p.kill()
@@ -215,7 +215,7 @@ def run(rep, tier, seed):
                         n += 1
 
         def runmode(m):
-            p = subprocess.run([core.P2SH, "-c", m["src"]], stdin=subprocess.DEVNULL, stdout=subprocess.PIPE, stderr=subprocess.PIPE, timeout=30)
+            p = subprocess.run([core.P2SH, "-c", m["src"]], stdin=subprocess.DEVNULL, stdout=subprocess.PIPE, stderr=subprocess.PIPE, timeout=180)
             m["stderr"] = p.stderr.decode("utf8", "replace")
             m["rc"] = p.returncode
         with ThreadPoolExecutor(max_workers=8) as ex:
